@@ -66,18 +66,18 @@ func (m MetaData) WriteTo(w io.Writer) (int64, error) {
 //   - When reading from a var b []byte, it is preferable to pass a buffer.NewBuffer(b)
 //     as w (see lattigo/utils/buffer/buffer.go).
 func (m *MetaData) ReadFrom(r io.Reader) (int64, error) {
-	p, err := readJSONObject(r)
+	p, err := ReadJSONObject(r)
 	if err != nil {
 		return int64(len(p)), err
 	}
 	return int64(len(p)), m.UnmarshalBinary(p)
 }
 
-// readJSONObject reads one JSON object from r, from its opening brace to the matching
+// ReadJSONObject reads one JSON object from r, from its opening brace to the matching
 // closing one, and nothing beyond it. The encoding of a metadata has no fixed size
 // (the decimal exponent of a scale can have more than two digits), so it is delimited
 // by its own syntax.
-func readJSONObject(r io.Reader) (p []byte, err error) {
+func ReadJSONObject(r io.Reader) (p []byte, err error) {
 
 	const maxSize = 1 << 12
 
@@ -246,7 +246,7 @@ func (m PlaintextMetaData) WriteTo(w io.Writer) (int64, error) {
 //   - When reading from a var b []byte, it is preferable to pass a buffer.NewBuffer(b)
 //     as w (see lattigo/utils/buffer/buffer.go).
 func (m *PlaintextMetaData) ReadFrom(r io.Reader) (int64, error) {
-	p, err := readJSONObject(r)
+	p, err := ReadJSONObject(r)
 	if err != nil {
 		return int64(len(p)), err
 	}
